@@ -1,0 +1,14 @@
+//go:build verif
+
+// Contracts for the deductive verifier in /verif (comment-only; compiled only with -tags verif).
+package ecies
+
+// C15: the handshake packet of an unauthenticated connection is decrypted with the node key before anything else is known
+// about the sender (network/p2p readHandshakeBuf -> Decrypt -> symDecrypt); whoever knows the node's public id can produce a
+// valid MAC, so the ciphertext body handed to symDecrypt is attacker-chosen in length.
+//@ func type:cipherFunc   trusted
+//@   modifies nothing
+//@ func symDecrypt
+//@   props C15
+//@   requires params != nil && params.BlockSize == 16
+//@   nopanic
